@@ -339,18 +339,151 @@ def check_tau(ctx, algo):
         ot = model.own_method("VHCT", "optTraverse")
         calls = calls_in(ot, "compute_tau_hi_value")
         okc = False
+        whyc = "%d compute_tau_hi_value call(s)" % len(calls)
         if len(calls) == 1:
-            loop = model.up(model.up(calls[0])) if isinstance(model.up(calls[0]), ast.Expr) else model.up(calls[0])
-            outer = model.up(loop)
-            okc = (isinstance(loop, ast.For) and isinstance(outer, ast.For)
-                   and norm_src(outer.iter) == "range(1, self.partition.get_depth() + 1)"
-                   and norm_src(loop.iter) in ("self.partition.get_layer_node_list(depth=%s)" % norm_src(outer.target),
-                                               "self.partition.get_layer_node_list(%s)" % norm_src(outer.target))
-                   and norm_src(calls[0].func.value) == norm_src(loop.target))
+            fco = CS.FnCtx(model, E.Effects(model), "VHCT", ot)
+            at = fco.cfg.node_of(calls[0])
+            sw = CS.cell_sweep(fco, calls[0].func.value, at)
+            guards = [g for g in fco.cfg.guards(at) if not any(g[0].ast is L for L in (sw["loops"] if sw else []))]
             whiles = [w for w in ast.walk(ot) if isinstance(w, ast.While)]
-            okc = okc and len(whiles) == 1 and outer.lineno < whiles[0].lineno
+            before = bool(sw) and len(whiles) == 1 and fco.cfg.dominates(fco.cfg.node_of(sw["loops"][0]), fco.cfg.node_of(whiles[0])) and \
+                not any(whiles[0] is x for x in ast.walk(sw["loops"][0]))
+            okc = CS.sweep_is_all_layers(fco, sw, min_layer=1) and not sw["partial"] and not guards and before
+            whyc = "sweep %s%s%s%s" % (sw["layers"][0] + (":" + "..".join(norm_src(x) for x in sw["layers"][1:]) if sw else "") if sw else "not recognised",
+                                     "; cut short by %s" % sw["partial"] if sw and sw["partial"] else "", "; conditional" if guards else "",
+                                     "" if before else "; does not precede the descent loop")
         ctx.ob("R05-TAU", okc, c.file, "VHCT.optTraverse", "thresholds of all cells of depth 1..D recomputed before descending",
-               "loop over every layer precedes the descent" if okc else "threshold refresh is not a full sweep before the descent", ot.lineno)
+               "loop over every layer precedes the descent" if okc else "threshold refresh is not a full sweep before the descent (%s)" % whyc, ot.lineno)
+
+
+def layer_order_bottom_up(fc, sw, cell_loop):
+    """Are the layers visited deepest first, exactly the depths D, D-1, .., 1 (D = partition depth, node list length D+1)?
+    The sequence of layer indices is evaluated symbolically from the loop form: slices / reversed() of the node list, or a
+    range() variable used as NL[i] / NL[-i]."""
+    D = sp.Symbol("D", positive=True, integer=True)
+    n = D + 1
+    T = SX.Translator(positive=True)
+    T.call_cb = None
+
+    def val(e):
+        """integer expression over D; len(NL) = D+1, partition depth = D"""
+        src = norm_src(e)
+        for a, b in (("self.partition.get_depth()", "D"), ("self.partition.depth", "D"), ("len(self.partition.get_node_list())", "(D + 1)")):
+            src = src.replace(a, b)
+        for nm in list(_nl_aliases):
+            src = src.replace("len(%s)" % nm, "(D + 1)")
+        try:
+            return sp.sympify(src, locals={"D": D})
+        except Exception:
+            return None
+
+    def norm_index(v, syntactically_negative):
+        return n + v if syntactically_negative else v
+
+    def is_neg(e):
+        return isinstance(e, ast.UnaryOp) and isinstance(e.op, ast.USub) or (isinstance(e, ast.BinOp) and isinstance(e.op, ast.Sub) and is_neg(e.left)) \
+            or (isinstance(e, ast.Constant) and isinstance(e.value, int) and e.value < 0)
+
+    _nl_aliases = set()
+    for nd in ast.walk(fc.fn):
+        if isinstance(nd, ast.Assign) and isinstance(nd.targets[0], ast.Name) and norm_src(nd.value) in CS.NODELIST_CALLS:
+            _nl_aliases.add(nd.targets[0].id)
+
+    def is_nl(e):
+        return norm_src(e) in CS.NODELIST_CALLS or (isinstance(e, ast.Name) and e.id in _nl_aliases)
+
+    def seq_of(e):
+        """(first, last, step) of the layer indices an iterable over the node list yields, or None"""
+        if is_nl(e):
+            return sp.Integer(0), D, 1
+        if isinstance(e, ast.Call) and isinstance(e.func, ast.Name) and e.func.id == "reversed" and len(e.args) == 1:
+            r = seq_of(e.args[0])
+            return (r[1], r[0], -r[2]) if r else None
+        if isinstance(e, ast.Call) and isinstance(e.func, ast.Name) and e.func.id == "list" and len(e.args) == 1:
+            return seq_of(e.args[0])
+        if isinstance(e, ast.Subscript) and isinstance(e.slice, ast.Slice):
+            base = seq_of(e.value)
+            if base is None or base != (sp.Integer(0), D, 1):
+                # slice of a slice: only NL[a:][::-1]
+                if base is not None and e.slice.lower is None and e.slice.upper is None and e.slice.step is not None and norm_src(e.slice.step) == "-1":
+                    return base[1], base[0], -base[2]
+                return None
+            sl = e.slice
+            step = 1 if sl.step is None else (-1 if norm_src(sl.step) == "-1" else (1 if norm_src(sl.step) == "1" else None))
+            if step is None:
+                return None
+            lo = None if sl.lower is None else val(sl.lower)
+            hi = None if sl.upper is None else val(sl.upper)
+            if (sl.lower is not None and lo is None) or (sl.upper is not None and hi is None):
+                return None
+            if lo is not None:
+                lo = norm_index(lo, is_neg(sl.lower))
+            if hi is not None:
+                hi = norm_index(hi, is_neg(sl.upper))
+            if step == 1:
+                return (lo if lo is not None else sp.Integer(0)), ((hi - 1) if hi is not None else D), 1
+            return (lo if lo is not None else D), ((hi + 1) if hi is not None else sp.Integer(0)), -1
+        return None
+    loops = sw["loops"]
+    lay = sw["layers"]
+    outer = loops[0]
+    first = last = step = None
+    if lay[0] in ("all", "from", "seq"):
+        it = outer.iter
+        if isinstance(outer.target, ast.Tuple) and isinstance(it, ast.Call) and norm_src(it.func) == "enumerate":
+            it = it.args[0]
+        r = seq_of(it)
+        if r is None:
+            return False, "layer order '%s' is not recognised as bottom-up over depths D..1" % norm_src(outer.iter)
+        first, last, step = r
+    elif lay[0] == "range":
+        # for i in range(a, b[, s]): layer index is the expression used to subscript the node list
+        it = outer.iter
+        a = val(it.args[0]) if len(it.args) >= 2 else sp.Integer(0)
+        b = val(it.args[1] if len(it.args) >= 2 else it.args[0])
+        if a is None or b is None:
+            return False, "range bounds '%s' not understood" % norm_src(it)
+        i0, i1, st = a, b - 1, 1
+        first, last, step = i0, i1, st
+    else:
+        # one layer per iteration of an enclosing range loop: NL[f(i)]
+        h = lay[1]
+        encl = [l for l in CS.enclosing_loops(fc, cell_loop) if isinstance(l, ast.For) and isinstance(l.target, ast.Name) and
+                isinstance(l.iter, ast.Call) and norm_src(l.iter.func) in ("range", "reversed")]
+        if not encl:
+            return False, "the layer index '%s' is not driven by a counting loop" % norm_src(h)
+        L = encl[0]
+        i = L.target.id
+        it = L.iter
+        rev = False
+        if norm_src(it.func) == "reversed" and len(it.args) == 1 and isinstance(it.args[0], ast.Call) and norm_src(it.args[0].func) == "range":
+            it, rev = it.args[0], True
+        if norm_src(it.func) != "range":
+            return False, "loop '%s' not understood" % norm_src(L.iter)
+        args = it.args
+        a = val(args[0]) if len(args) >= 2 else sp.Integer(0)
+        b = val(args[1] if len(args) >= 2 else args[0])
+        st = 1 if len(args) < 3 else (-1 if norm_src(args[2]) == "-1" else (1 if norm_src(args[2]) == "1" else None))
+        if a is None or b is None or st is None:
+            return False, "range '%s' not understood" % norm_src(it)
+        i0, i1 = (a, b - 1) if st == 1 else (a, b + 1)
+        if rev:
+            i0, i1, st = i1, i0, -st
+        # index expression as a function of i (resolve a local alias `layer = NL[..]`)
+        hsrc = norm_src(h)
+        isym = sp.Symbol(i, integer=True)
+        neg = is_neg(h)
+        try:
+            hv = sp.sympify(hsrc.replace("self.partition.get_depth()", "D"), locals={"D": D, i: isym})
+        except Exception:
+            return False, "layer index '%s' not understood" % hsrc
+        if neg:
+            hv = n + hv
+        first, last = hv.subs(isym, i0), hv.subs(isym, i1)
+        step = sp.simplify(hv.subs(isym, isym + st) - hv)
+    ok = sp.simplify(first - D) == 0 and sp.simplify(last - 1) == 0 and sp.simplify(step + 1) == 0
+    return ok, ("layer indices run %s, %s%s.., %s" % (first, first, "%+d" % int(step) if step in (1, -1) else "?", last)) if ok else \
+        "layers are visited %s -> %s with step %s, not D -> 1 deepest first" % (first, last, step)
 
 
 def check_backward(ctx, algo):
@@ -360,102 +493,88 @@ def check_backward(ctx, algo):
     fn = model.own_method(algo, "updateBackwardTree")
     qual = "%s.updateBackwardTree" % algo
     ctx.fn(qual)
-    body = strip_doc(fn.body)
-    loops = [s for s in body if isinstance(s, ast.For)]
-    if len(loops) != 1:
-        ctx.violation("R05-B", c.file, qual, "layer loop", "expected one loop over the layers", fn.lineno)
+    fc = CS.FnCtx(model, E.Effects(model), algo, fn)
+    calls = calls_in(fn, "update_b_value")
+    if not calls:
+        ctx.violation("R05-B", c.file, qual, "B update", "updateBackwardTree never calls update_b_value", fn.lineno)
         return
-    L = loops[0]
-    nl = None
-    for s in body:
-        if isinstance(s, ast.Assign) and norm_src(s.value) == "self.partition.get_node_list()" and isinstance(s.targets[0], ast.Name):
-            nl = s.targets[0].id
-    order_ok = False
-    layer_var = None
-    it = norm_src(L.iter)
-    D = "self.partition.get_depth()"
-    inner_layer = [s for s in L.body if isinstance(s, ast.For)]
-    if nl and isinstance(L.target, ast.Name):
-        i = L.target.id
-        if it == "range(1, %s + 1)" % D:
-            # layer = nodes[-i]: deepest first (len = D+1), down to layer 1
-            asg = [s for s in L.body if isinstance(s, ast.Assign) and norm_src(s.value) == "%s[-%s]" % (nl, i)]
-            if asg:
-                order_ok, layer_var = True, norm_src(asg[0].targets[0])
-        elif it in ("range(%s, 0, -1)" % D, "reversed(range(1, %s + 1))" % D):
-            asg = [s for s in L.body if isinstance(s, ast.Assign) and norm_src(s.value) == "%s[%s]" % (nl, i)]
-            if asg:
-                order_ok, layer_var = True, norm_src(asg[0].targets[0])
-    if nl and it in ("reversed(%s[1:])" % nl, "%s[:0:-1]" % nl, "%s[1:][::-1]" % nl) and isinstance(L.target, ast.Name):
-        order_ok, layer_var = True, L.target.id
-        inner_layer = [L]
-    ctx.ob("R05-B", order_ok, c.file, qual, "layers visited deepest first, depths D..1",
-           "for %s in %s" % (norm_src(L.target), it) if order_ok else "layer order '%s' is not recognised as bottom-up over depths D..1" % it, L.lineno)
+    # all update sites sit in one loop over the cells of a layer
+    cell_loops = []
+    for call in calls:
+        recv = call.func.value
+        sw = CS.cell_sweep(fc, recv, fc.cfg.node_of(call)) if isinstance(recv, ast.Name) else None
+        if sw is None:
+            ctx.violation("R05-B", c.file, qual, norm_src(call), "the updated cell is not the element variable of a loop over a layer", call.lineno)
+            return
+        if sw["loops"][-1] not in cell_loops:
+            cell_loops.append(sw["loops"][-1])
+    if len(cell_loops) != 1:
+        ctx.violation("R05-B", c.file, qual, "cell loop", "B-values are updated in %d different loops" % len(cell_loops), fn.lineno)
+        return
+    NLp = cell_loops[0]
+    sw = CS.cell_sweep(fc, calls[0].func.value, fc.cfg.node_of(calls[0]))
+    node = calls[0].func.value.id
+    order_ok, how = layer_order_bottom_up(fc, sw, NLp)
+    ctx.ob("R05-B", order_ok and not sw["partial"], c.file, qual, "layers visited deepest first, depths D..1, every cell of each",
+           how if order_ok and not sw["partial"] else "%s%s" % (how, "; cut short by %s" % sw["partial"] if sw["partial"] else ""), NLp.lineno)
     if not order_ok:
         return
-    node_loops = [s for s in (L.body if inner_layer != [L] else [L]) if isinstance(s, ast.For) and norm_src(s.iter) == layer_var] \
-        if inner_layer != [L] else []
-    if inner_layer == [L]:
-        node_loops = [s for s in L.body if isinstance(s, ast.For)]
-    if len(node_loops) != 1 or not isinstance(node_loops[0].target, ast.Name):
-        ctx.violation("R05-B", c.file, qual, "cell loop", "expected one loop over the cells of the layer", L.lineno)
+    # per-cell step, path by path: leaf -> B <- U; internal -> B <- min(U, max over ALL children of B)
+    tmpl = ast.FunctionDef(name="__cell_step", args=ast.arguments(posonlyargs=[], args=[ast.arg(arg="self"), ast.arg(arg=node)], kwonlyargs=[],
+                                                                    kw_defaults=[], defaults=[]), body=list(NLp.body), decorator_list=[])
+    ast.fix_missing_locations(tmpl)
+    Sm = SM.Summarizer(model, algo)
+    try:
+        ps = Sm.run(tmpl, params={node: Sm.T.sym(node)})
+    except (SM.HasLoop, SX.Untranslatable) as ex:
+        ctx.violation("R05-B", c.file, qual, "per-cell step", "cannot summarise the per-cell step: %s" % ex, NLp.lineno)
         return
-    NLp = node_loops[0]
-    node = NLp.target.id
-    stmts = [s for s in NLp.body if not (isinstance(s, ast.Expr) and isinstance(s.value, ast.Constant))]
-    ifs = [s for s in stmts if isinstance(s, ast.If)]
-    if len(ifs) != 1:
-        ctx.violation("R05-B", c.file, qual, "leaf / internal case split", "expected `if children is None: .. else: ..`", NLp.lineno)
-        return
-    I = ifs[0]
-    aliases = {}
-    for s in stmts:
-        if isinstance(s, ast.Assign) and isinstance(s.targets[0], ast.Name):
-            aliases[s.targets[0].id] = norm_src(s.value)
-    test = norm_src(I.test)
-    for a, v in aliases.items():
-        test = test.replace(a, v) if test.startswith(a + " ") else test
-    leaf_first = test in ("%s.get_children() is None" % node, "%s.children is None" % node)
-    internal_first = test in ("%s.get_children() is not None" % node, "%s.children is not None" % node)
-    ctx.ob("R05-B", leaf_first or internal_first, c.file, qual, "case split on 'cell has no children'", "test: %s" % test, I.lineno)
-    if not (leaf_first or internal_first):
-        return
-    leaf_body, int_body = (I.body, I.orelse) if leaf_first else (I.orelse, I.body)
-    U = "%s.get_u_value()" % node
-    okleaf = len(leaf_body) == 1 and norm_src(leaf_body[0]) in ("%s.update_b_value(%s)" % (node, U), "%s.update_b_value(b_value=%s)" % (node, U))
-    ctx.ob("R05-B", okleaf, c.file, qual, "leaf: B <- U", "%s" % [norm_src(s) for s in leaf_body], I.lineno)
-    # internal: acc = -inf; for child in children: acc = max(acc, child.B); B <- min(U, acc)
-    acc = None
-    seed_ok = fold_ok = store_ok = False
-    why = ""
-    for s in int_body:
-        if isinstance(s, ast.Assign) and isinstance(s.targets[0], ast.Name) and acc is None:
-            acc = s.targets[0].id
-            seed_ok = norm_src(s.value) in ("-np.inf", "-math.inf", "float('-inf')", "-float('inf')")
-            if not seed_ok:
-                why = "running maximum starts at %s, not at -inf" % norm_src(s.value)
-        elif isinstance(s, ast.For) and acc is not None:
-            whole = norm_src(s.iter) in ("%s.get_children()" % node, "%s.children" % node) or aliases.get(norm_src(s.iter)) in (
-                "%s.get_children()" % node, "%s.children" % node)
-            child = norm_src(s.target)
-            bod = [norm_src(x) for x in s.body]
-            B = "%s.get_b_value()" % child
-            forms = {"%s = np.maximum(%s, %s)" % (acc, acc, B), "%s = np.maximum(%s, %s)" % (acc, B, acc),
-                     "%s = max(%s, %s)" % (acc, acc, B), "%s = max(%s, %s)" % (acc, B, acc)}
-            fold_ok = whole and len(bod) == 1 and bod[0] in forms
-            if not whole:
-                why = "the maximum runs over '%s', not over all children" % norm_src(s.iter)
-            elif not fold_ok:
-                why = "fold body %s is not acc = max(acc, child.B)" % bod
-        elif isinstance(s, ast.Expr) and isinstance(s.value, ast.Call) and method_name(s.value) == "update_b_value" and acc is not None:
-            a = norm_src(s.value.args[0]) if s.value.args else ""
-            store_ok = norm_src(s.value.func.value) == node and a in (
-                "np.minimum(%s, %s)" % (U, acc), "np.minimum(%s, %s)" % (acc, U), "min(%s, %s)" % (U, acc), "min(%s, %s)" % (acc, U))
-            if not store_ok:
-                why = "B is set to %s, not to min(U, max children B)" % a
-    okint = seed_ok and fold_ok and store_ok
-    ctx.ob("R05-B", okint, c.file, qual, "internal cell: B <- min(U, max over all children of B), maximum seeded with -inf",
-           "recognised" if okint else (why or "internal case not recognised: %s" % [norm_src(s) for s in int_body]), I.lineno)
+    U = sp.Function("CALL_%s_get_u_value" % node)()
+    KIDS = sp.Function("CALL_%s_get_children" % node)()
+    REF = sp.Min(U, sp.Function("REDUCE_max")(-sp.oo, KIDS, sp.Function("CALL_ELEM_get_b_value")()))
+    seen = {"leaf": 0, "internal": 0}
+    for p in ps:
+        kind = None
+        bad = None
+        for csrc, pol in p.conds:
+            e = ast.parse(csrc, mode="eval").body
+            subj = None
+            if isinstance(e, ast.Compare) and len(e.ops) == 1 and isinstance(e.ops[0], (ast.Is, ast.IsNot)) and norm_src(e.comparators[0]) == "None":
+                try:
+                    subj = Sm.tr(e.left, p)
+                except SX.Untranslatable:
+                    subj = None
+                is_none = isinstance(e.ops[0], ast.Is) == pol
+            elif isinstance(e, ast.Name) or isinstance(e, ast.Call):
+                try:
+                    subj = Sm.tr(e, p)
+                except SX.Untranslatable:
+                    subj = None
+                is_none = not pol        # truthiness of the child list: None and [] are both 'no children'
+            if subj is None or subj != KIDS:
+                bad = csrc
+                break
+            k2 = "leaf" if is_none else "internal"
+            if kind is not None and kind != k2:
+                kind = "infeasible"
+            elif kind is None:
+                kind = k2
+        if kind == "infeasible":
+            continue
+        ups = [e for e in p.effects if e[1] == "update_b_value"]
+        others = [e for e in p.effects if e[1] != "update_b_value"] + [x for x in p.calls if x.startswith("store ")]
+        if bad is not None or kind is None:
+            ctx.violation("R05-B", c.file, qual, "per-cell step", "the update depends on a condition other than 'cell has children': %s" % (bad or p.conds), NLp.lineno)
+            continue
+        seen[kind] += 1
+        okp = len(ups) == 1 and ups[0][0] == node and ups[0][2] is not None and len(ups[0][2]) + len(ups[0][3]) == 1 and not others
+        val = (ups[0][2] + list(ups[0][3].values()))[0] if okp else None
+        want = U if kind == "leaf" else REF
+        okp = okp and SX.equivalent(val, want)[0] is True
+        ctx.ob("R05-B", okp, c.file, qual, "leaf: B <- U" if kind == "leaf" else "internal cell: B <- min(U, max over all children of B), maximum seeded with -inf",
+               "B <- %s" % val if okp else "B <- %s on the path %s; expected %s%s" % (val, p.conds, want, "; other effects %s" % others if others else ""), NLp.lineno)
+    if not (seen["leaf"] and seen["internal"]):
+        ctx.violation("R05-B", c.file, qual, "per-cell step", "leaf and internal cells are not both handled (%s)" % seen, NLp.lineno)
     # getters / setter
     ncls = TREE_ALGOS[algo]
     for g, a in (("get_b_value", "b_value"), ("get_u_value", "u_value")):
@@ -480,7 +599,35 @@ def check_descent(ctx, algo):
         ctx.violation("R05-DESCENT", c.file, qual, "descent loop", "expected one while loop", fn.lineno)
         return
     W = whiles[0]
-    atoms = {C.atom_of(e, pol) for e, pol in C.flatten_cond(W.test, True)}
+    # continue-condition: the while test plus every top-level `if c: break` of the body (the loop goes on iff all of them
+    # let it); local aliases assigned once in the body before the test are resolved
+    def resolve(e, upto):
+        defs = {}
+        for b in W.body:
+            if b is upto:
+                break
+            if isinstance(b, ast.Assign) and len(b.targets) == 1 and isinstance(b.targets[0], ast.Name):
+                defs[b.targets[0].id] = b.value
+
+        class Sub(ast.NodeTransformer):
+            def visit_Name(self, n):
+                if isinstance(n.ctx, ast.Load) and n.id in defs:
+                    return ast.parse(ast.unparse(defs[n.id]), mode="eval").body
+                return n
+        return Sub().visit(ast.parse(ast.unparse(e), mode="eval").body)
+    atoms = set()
+    if not (isinstance(W.test, ast.Constant) and W.test.value is True):
+        atoms |= {C.atom_of(e, pol) for e, pol in C.flatten_cond(W.test, True)}
+    exits = []
+    for b in W.body:
+        if isinstance(b, ast.If) and not b.orelse and len(b.body) == 1 and isinstance(b.body[0], ast.Break):
+            atoms |= {C.atom_of(e, pol) for e, pol in C.flatten_cond(resolve(b.test, b), False)}
+            exits.append(b)
+    other = [x for b in W.body for x in ast.walk(b) if isinstance(x, (ast.Break, ast.Return, ast.Continue, ast.Raise)) and
+             not any(x is e.body[0] for e in exits)]
+    if other:
+        ctx.violation("R05-DESCENT", c.file, qual, norm_src(other[0]), "the descent loop has an exit the rule does not account for", other[0].lineno)
+        return
     cur = None
     for a in atoms:
         if a[0] == "is not" and a[1].endswith(".get_children()") and a[2] == "None":
@@ -504,23 +651,24 @@ def check_descent(ctx, algo):
     ctx.ob("R05-DESCENT", ok, c.file, qual, "descent starts at the root", "%s" % [norm_src(r[1]) for r in starts if r[0] == "assign"], W.lineno)
     # step: argmax of B over all children
     folds = [f for f in ID.find_folds(fn) if f.if_node in list(ast.walk(W))]
-    good = [f for f in folds if f.kind == "incumbent"]
-    if len(folds) != 1 or not good:
+    if len(folds) != 1:
         desc = [f.describe() + (" [%s]" % "; ".join(f.also) if f.also else "") for f in folds]
         ctx.violation("R05-DESCENT", c.file, qual, "child selection",
                       "not recognised as 'move to a child with maximal B' (%s)" % (desc or "no arg-max fold found"), W.lineno)
         return
-    f = good[0]
-    okf = (f.direction == "max" and f.covers_all and not f.also and f.key_src == "%s.get_b_value()" % f.cand
-           and f.set_src in ("%s.get_children()" % cur, "children"))
-    if f.set_src == "children":
-        dd = [s for s in W.body if isinstance(s, ast.Assign) and norm_src(s.targets[0]) == "children"]
-        okf = okf and len(dd) == 1 and norm_src(dd[0].value) == "%s.get_children()" % cur
+    f = folds[0]
+    kids = "%s.get_children()" % cur
+    set_ok = f.set_src == kids
+    if not set_ok and f.set_src.isidentifier():
+        dd = [s2 for s2 in W.body if isinstance(s2, ast.Assign) and norm_src(s2.targets[0]) == f.set_src]
+        set_ok = len(dd) == 1 and norm_src(dd[0].value) == kids
+    okf = (f.direction == "max" and f.covers_all and not f.also and not f.filters and f.key_src == "%s.get_b_value()" % f.elem and set_ok
+           and f.seed in ("first-element", "-np.inf", "-math.inf", "-float('inf')", "float('-inf')"))
     ctx.ob("R05-DESCENT", okf, c.file, qual, "step: child with maximal B among all children", f.describe() + ("; " + "; ".join(f.also) if f.also else ""),
            f.if_node.lineno)
-    mv = [s for s in W.body if isinstance(s, ast.Assign) and norm_src(s.targets[0]) == cur]
-    okm = len(mv) == 1 and norm_src(mv[0].value) == f.best and W.body.index(mv[0]) > max(W.body.index(s) for s in W.body if f.if_node in list(ast.walk(s)))
-    ctx.ob("R05-DESCENT", okm, c.file, qual, "cursor moves to the selected child", "%s" % [norm_src(s) for s in mv], W.lineno)
+    mv = [s2 for s2 in W.body if isinstance(s2, ast.Assign) and norm_src(s2.targets[0]) == cur]
+    okm = len(mv) == 1 and norm_src(mv[0].value) == f.winner and W.body.index(mv[0]) > max(W.body.index(s2) for s2 in W.body if f.if_node in list(ast.walk(s2)))
+    ctx.ob("R05-DESCENT", okm, c.file, qual, "cursor moves to the selected child", "%s" % [norm_src(s2) for s2 in mv], W.lineno)
     # pull returns that cell's representative (checked with the path pairing in C04 R04-PAIR)
 
 
@@ -566,16 +714,19 @@ def check_update_uvalue_tree(ctx, algo):
     model = ctx.model
     c = model.cls(algo)
     fn = model.own_method(algo, "updateUvalueTree")
-    loops = [l for l in ast.walk(fn) if isinstance(l, ast.For)]
-    ok = False
-    if len(loops) == 2:
-        outer, inner = (loops[0], loops[1]) if loops[1] in list(ast.walk(loops[0])) else (loops[1], loops[0])
-        nl = [s for s in fn.body if isinstance(s, ast.Assign) and norm_src(s.value) == "self.partition.get_node_list()"]
-        ok = bool(nl) and norm_src(outer.iter) == norm_src(nl[0].targets[0]) and norm_src(inner.iter) == norm_src(outer.target) \
-            and any(isinstance(x, ast.Call) and method_name(x) == "compute_u_value" and norm_src(x.func.value) == norm_src(inner.target)
-                    for x in ast.walk(inner))
+    fc = CS.FnCtx(model, E.Effects(model), algo, fn)
+    calls = calls_in(fn, "compute_u_value")
+    ok = len(calls) == 1
+    why = "%d compute_u_value call(s)" % len(calls)
+    if ok:
+        at = fc.cfg.node_of(calls[0])
+        sw = CS.cell_sweep(fc, calls[0].func.value, at)
+        guards = [g for g in fc.cfg.guards(at) if not any(g[0].ast is L for L in (sw["loops"] if sw else []))]
+        ok = CS.sweep_is_all_layers(fc, sw) and not sw["partial"] and not guards
+        why = ("sweep %s%s%s" % (sw["layers"][0] if sw else "not recognised", "; cut short by %s" % sw["partial"] if sw and sw["partial"] else "",
+                                 "; conditional" if guards else ""))
     ctx.ob("R05-U", ok, c.file, "%s.updateUvalueTree" % algo, "U recomputed for every cell of every layer",
-           "double loop over node_list" if ok else "not a full sweep over node_list", fn.lineno)
+           "every layer, every cell, unconditionally" if ok else "not a full sweep over node_list (%s)" % why, fn.lineno)
 
 
 def run(ctx):
